@@ -1,6 +1,7 @@
 package props
 
 import (
+	"strings"
 	"context"
 	"crypto/tls"
 	"encoding/json"
@@ -64,6 +65,9 @@ func (sp *PathSpec) dialer(w *world) (*websocket.Dialer, string) {
 	}
 	if sp.Timeout {
 		d.HandshakeTimeout = 30 * time.Second
+		if sp.FailKind == 3 {
+			d.HandshakeTimeout = 40 * time.Millisecond // the faulting operation stalls until it has passed
+		}
 	}
 	scheme := "ws"
 	if sp.WSS {
@@ -283,6 +287,23 @@ func c18Gen(rng *rand.Rand, tier string) []core.Spec {
 			}
 		}
 	}
+	// every CONNECT reply class on both kinds of HTTP proxy: only 200 opens the tunnel
+	for _, proxy := range []string{"http", "https"} {
+		for _, wss := range []bool{false, true} {
+			for _, reply := range []string{"HTTP/1.1 200 OK", "HTTP/1.1 200", "HTTP/1.1 201 Created", "HTTP/1.1 202 Accepted", "HTTP/1.1 204 No Content", "HTTP/1.1 299 X",
+				"HTTP/1.1 100 Continue", "HTTP/1.1 301 Moved", "HTTP/1.1 407 Proxy Authentication Required", "HTTP/1.1 407", "HTTP/1.1 502 Bad Gateway", "HTTP/1.0 200 OK"} {
+				h := "backend.test"
+				sp := &PathSpec{Prop: 18, NetDialCtx: true, WSS: wss, Host: h, Proxy: proxy, ProxyHost: "proxy.test:3128", FailAt: -1, ProxyReply: reply}
+				if strings.Contains(reply, " 200") {
+					sp.ProxyReply = ""
+					if reply != "HTTP/1.1 200 OK" {
+						continue
+					}
+				}
+				out = append(out, sp)
+			}
+		}
+	}
 	return out
 }
 
@@ -340,8 +361,17 @@ func cleanupExec(s core.Spec) core.Exec {
 	w.wg.Wait()
 	// early I/O: the library's own TLS handshake on the first hop precedes the deadline
 	early := (sp.Proxy == "" && sp.WSS && !sp.NetDialTLS) || (sp.Proxy == "https" && !sp.NetDialTLS)
+	// every dial function that takes a context got one that carries the deadline
+	ctxok := true
+	w.mu.Lock()
+	for _, h := range w.hops {
+		if sp.Timeout && h.fn != "netdial" && !h.ctxDL {
+			ctxok = false
+		}
+	}
+	w.mu.Unlock()
 	t := core.NewTape(16)
-	t.Bool(false).Bool(sp.Timeout).Bool(early)
+	t.Bool(false).Bool(sp.Timeout).Bool(early).Bool(ctxok)
 	t.Bool(ok)
 	for _, x := range traceCodes(ev) {
 		t.N(x)
@@ -435,6 +465,13 @@ func c16Gen(rng *rand.Rand, tier string) []core.Spec {
 						cse.FailAt, cse.FailKind = k, kind
 						out = append(out, &cse)
 					}
+					if base.Timeout && (tier == "thorough" || k%2 == 0) && (len(evs) <= k || !strings.HasPrefix(evs[k], "set")) {
+						// the peer goes silent at this read / write: the operation returns only when the
+						// handshake deadline has passed
+						cse := base
+						cse.FailAt, cse.FailKind = k, 3
+						out = append(out, &cse)
+					}
 				}
 			}
 		}
@@ -470,7 +507,7 @@ func cleanupAnyExec(s core.Spec) core.Exec {
 		}
 		c, err := u.Upgrade(w, r, nil)
 		t := core.NewTape(16)
-		t.Bool(true).Bool(hw.Timeout).Bool(false).Bool(err == nil && c != nil)
+		t.Bool(true).Bool(hw.Timeout).Bool(false).Bool(true).Bool(err == nil && c != nil)
 		for _, e := range sc.Events {
 			switch e.Kind {
 			case "write":
@@ -537,6 +574,7 @@ func init() {
 			162: "the Proxy-Authorization sent with CONNECT is not Basic base64(user:password) of the configured (decoded) credentials, or credentials were sent although none/only a user name was configured",
 			163: "the TLS session that reached the backend through the proxy was not opened for the URL's host (or TLSClientConfig.ServerName)",
 			164: "a ws:// connection through a proxy was wrapped in TLS towards the backend",
+			165: "the first hop was not dialed with the dial function the Dialer configures for it",
 		},
 	})
 	core.Register(&core.Prop{
@@ -550,6 +588,7 @@ func init() {
 			171: "the handshake failed but the network connection was not closed (or something happened to it after Close)",
 			172: "handshake I/O happened before the configured deadline was armed",
 			173: "the handshake succeeded but the connection was handed over with a read or write deadline still armed",
+			174: "a dial function was given a context without the handshake deadline",
 		},
 	})
 }
